@@ -1,4 +1,5 @@
 import Mqtt5V.Model.SerialOrder
+import Mqtt5V.Proofs.Sender
 /-! # C06 — PUBLISH packets leave in initiation order, also when retransmitted (ordering core)
 
 The re-send order is decided by `write_req::operator<` and `std::stable_sort`.  While every serial
@@ -91,6 +92,28 @@ theorem lt_not_transitive_across_wrap :
     let b : Req := ⟨2, false, 2 ^ 31 + 1⟩
     lt z a = true ∧ lt a b = true ∧ lt b z = true := by
   decide
+
+/-! ## through the sender: batches keep the queue order, a failed batch goes back in front, resend sorts -/
+open Mqtt5V.Model.Sender Mqtt5V.Proofs.Sender in
+/-- the re-send sort of the sender model is the comparator sort of this file on (prioritized, serial) -/
+theorem sender_sort_is_comparator_sort (q : List SReq) : (sortReqs q).map toReq = sortQueue (q.map toReq) := by
+  unfold sortReqs sortQueue
+  exact List.map_mergeSort (fun a _ b _ => rfl)
+
+open Mqtt5V.Model.Sender Mqtt5V.Proofs.Sender in
+/-- **every write batch is an order-preserving subsequence of the queue** and what stays behind keeps its order too
+(throttled split); with no Receive Maximum the whole queue is written as it stands -/
+theorem batch_is_order_preserving_subsequence (q : List SReq) (k : Nat) :
+    (split q k).1.Sublist q ∧ (split q k).2.1.Sublist q ∧ ((split q k).1 ++ (split q k).2.1).Perm q :=
+  ⟨split_batch_sublist q k, split_rest_sublist q k, split_perm q k⟩
+
+open Mqtt5V.Model.Sender in
+/-- **a failed batch is put back in front of later requests** before everything is re-sent: after `try_again` the
+requests re-enter as unanswered ++ batch ++ queue and are then sorted (stable) -/
+theorem failed_batch_back_in_front (s : S) (b : List SReq) (h : s.inflight = some b) :
+    (step s (.wdone .tryAgain)).1 =
+      (doWrite { s with inflight := none, queue := sortReqs (s.unanswered ++ (b ++ s.queue)), unanswered := [], limit := s.rm.getD MAX_LIMIT, quota := s.rm.getD MAX_LIMIT }).1 := by
+  simp [step, h, resend]
 
 /-- non-vacuity: a window queue with a PUBREL, two PUBLISHes out of order and a SUBSCRIBE meets the hypotheses -/
 example : InWindow [⟨0, false, 7⟩, ⟨1, false, 0⟩, ⟨2, false, 5⟩, ⟨3, true, 6⟩] ∧
